@@ -5,6 +5,8 @@ SPEC = {
     "tests": [
         {"name": "TestDecode", "quick": 6000, "thorough": 480000, "shards_quick": 4, "shards_thorough": 16, "timeout": 1800},
     ],
+    # thorough tier: coverage-guided campaign over the same generator + oracle (rapid.MakeFuzz)
+    "fuzz": [{"name": "FuzzModel", "seconds": 90}],
     "rule": ("rapid-generated ammo models (1-8 entries: method, RFC 3986 path+query, ordered unique headers, binary/empty/newline- and "
              "'['-bearing bodies, tags with inner spaces and special characters, Host; in-file [Header: value] directives at generated "
              "positions for uri/uripost) rendered into uri / uripost / raw / http-json with layout knobs (blank lines, leading/trailing "
